@@ -109,9 +109,37 @@ def run(chk, tier, seed):
                 return None
             ob = observe(dfs, path, ct)
             os.unlink(path)
-            return dict(ob, e="ident", id=i, d=c["d"], ext=c["ext"])
+            return dict(ob, e="ident", id=i, d=c["d"], ext=c["ext"], g="sdd1440")
         events = [e for e in common.pmap(do, list(enumerate(cases))) if e is not None]
         chk.extra["unrealisable_combinations"] = len(cases) - len(events)
+        # geometry / body independence on other containers: a file body lying where the catalogue of a second side would be
+        # (sector 400 of an 800-sector .ssd, 720 of a 1440-sector .sdd) either looks like a catalogue or does not
+        def geom_case(args):
+            gi, ext, nsec, other, variant, forged = args
+            x = dict(hdfs=(variant == "HDFS"), aa2=(variant == "WDFS"), start=other, spt18=False, totok=False, vols="none", lastok=True, cat0=True, total=nsec if nsec <= 1023 else 1023)
+            img = mkdisc.blank_surface(nsec, 9)
+            ents = [mkdisc.entry("BODY", length=512, start=other, load=0x1900, exe=0x8023), mkdisc.entry("LOW", length=100, start=6)]
+            s0, s1 = mkdisc.catalog_fragment(b"GEOM", 0x11, 2, x["total"], ents, byte6_extra=8 if x["hdfs"] else 0)
+            mkdisc.put(img, 0, s0); mkdisc.put(img, 1, s1)
+            if variant == "WDFS":
+                w0, w1 = mkdisc.catalog_fragment(b"", 0x11, 2, x["total"], [], marker=True)
+                mkdisc.put(img, 2, w0); mkdisc.put(img, 3, w1)
+            if forged:
+                f0, f1 = mkdisc.catalog_fragment(b"FORGED", 1, 0, x["total"], [mkdisc.entry("FAKE", length=256, start=10)])
+                mkdisc.put(img, other, f0); mkdisc.put(img, other + 1, f1)
+            path = os.path.join(scratch, "g%d.%s" % (gi, ext))
+            mkdisc.write(path, bytes(img))
+            ob = observe(dfs, path, x["total"])
+            # the forged body is file content: leave it out of the listing comparison by hashing cat/info/show-titles only (done in observe)
+            os.unlink(path)
+            return dict(ob, e="ident", id=100000 + gi, d=x, ext=ext, g="%s%d" % (ext, nsec))
+        gjobs = []
+        for ext, nsec, other in (("ssd", 800, 400), ("sdd", 1440, 720), ("ssd", 400, 350)):
+            for variant in ("DFS", "WDFS", "HDFS"):
+                for forged in (False, True):
+                    gjobs.append((len(gjobs), ext, nsec, other, variant, forged))
+        gev = common.pmap(geom_case, gjobs)
+        events += gev
         for e in events:
             chk.case(json.dumps(e["d"], sort_keys=True), nontrivial=e["variant"] not in ("NONE",))
         chk.sample(events[0])
